@@ -88,14 +88,8 @@ Example C01_json_lone_surrogates :
   loads (dumps_text (JStr [56832; 55357; 120; 55357])) = Ok (JStr [56832; 55357; 120; 55357]).
 Proof. split; vm_compute; reflexivity. Qed.
 
-(* ints beyond 4300 digits: json.dumps raises ValueError (int.__repr__), json.loads raises ValueError (int(str)) *)
-Theorem C01_json_int_digit_limit :
-  dumps (JInt (10 ^ 4299)) = Ok (49 :: repeat 48 4299) /\
-  dumps (JList [JInt (10 ^ 4300)]) = Err ValueError /\
-  loads (repeat 49 4300) = Ok (JInt ((10 ^ 4300 - 1) / 9)) /\
-  loads (repeat 49 4301) = Err ValueError.
-Proof. split; [|split; [|split]]; vm_compute; reflexivity. Qed.
-Print Assumptions C01_json_int_digit_limit.
+(* ints beyond 4300 digits: json.dumps / json.loads raise ValueError - C01_json_int_digit_limit in Props/C01JsonLimit.v
+   (evaluated by the kernel's virtual machine; kept in a file of its own because coqchk has no virtual machine) *)
 
 (* duplicate keys in a text: the last value, at the position of the first occurrence (dict(pairs)) *)
 Example C01_json_duplicate_keys :
